@@ -135,7 +135,7 @@ def run_unit(A, unit, rep, tier):
     for m in ("pop", "popitem", "__delitem__"):
         if m in eps and eps[m].module.name != "_collections_abc":
             b, g = A.graph(cls, m, "root", "none")
-            rem = [n for n in live(g) if n.kind == "data_mut" and n["op"] in ("pop", "popitem", "delitem") and len(n.stack) == 1]
+            rem = [n for n in live(g) if n.kind == "data_mut" and n["op"] in ("pop", "popitem", "delitem") and own(n)]
             if rem:
                 rep.ok("C16.d", f"C16.d {eps[m].qualname}: removal through the built-in operation")
             else:
